@@ -199,8 +199,18 @@ func c04Isolation(s1, s2, l1, l2 string) string {
 	if mentions && carries == 0 {
 		return "the statement reads a ledger-scoped table but does not mention the ledger name: rows of every ledger of the bucket are visible"
 	}
+	// every select block that reads a ledger-scoped table restricts the ledger itself (or joins on a seq key)
+	bad, err := sqlrec.UnscopedSelects(s1, l1, c04ScopedTables)
+	if err != nil {
+		return "statement structure: " + err.Error()
+	}
+	if len(bad) > 0 {
+		return bad[0]
+	}
 	return ""
 }
+
+var c04ScopedTables = map[string]bool{"accounts": true, "transactions": true, "moves": true, "logs": true, "accounts_metadata": true, "transactions_metadata": true}
 
 func TestC04(t *testing.T) {
 	c := evid.New("C04")
